@@ -227,6 +227,11 @@ func (e mwEngine) Gen(t *rapid.T, tier string) any {
 	for i := 0; i < quota+2; i++ {
 		subs = append(subs, fmt.Sprintf("%c", 'a'+i))
 	}
+	if e.prop == "C18" && rapid.IntRange(0, 3).Draw(t, "longsubs") == 0 {
+		// long ids that share their first 64 bytes
+		subs[0] = strings.Repeat("L", 64) + "-one"
+		subs[1] = strings.Repeat("L", 64) + "-two"
+	}
 	if rapid.IntRange(0, 4).Draw(t, "emptysub") == 0 {
 		subs[0] = "" // the empty string is a subscription id like any other
 	}
